@@ -278,22 +278,22 @@ Proof.
   nia.
 Qed.
 
-Lemma process_ubi_blocked : forall s u s',
+Lemma process_ubi_blocked : forall cf s u s',
   inflation_possible (s_ysnap s) (p_maxann (s_params s)) (nat_supply s) (s_now s) <> Ok true ->
-  process_ubi s u = Ok s' -> s' = s.
+  process_ubi cf s u = Ok s' -> s' = s.
 Proof.
-  intros s u s' Hn. unfold process_ubi.
+  intros cf s u s' Hn. unfold process_ubi.
   destruct (inflation_possible _ _ _ _) as [[|]| |]; cbn [bind negb]; try discriminate; [congruence|].
   intros H; inversion H; reflexivity.
 Qed.
-Lemma ubi_end_blocked : forall us s s',
+Lemma ubi_end_blocked : forall cf us s s',
   inflation_possible (s_ysnap s) (p_maxann (s_params s)) (nat_supply s) (s_now s) <> Ok true ->
-  ubi_end us s = Ok s' -> s' = s.
+  ubi_end cf us s = Ok s' -> s' = s.
 Proof.
-  induction us as [|u r IH]; intros s s' Hn; cbn [ubi_end].
+  intros cf. induction us as [|u r IH]; intros s s' Hn; cbn [ubi_end].
   - intros H; inversion H; reflexivity.
-  - destruct (ubi_due (s_now s) u); [|apply IH; assumption].
-    destruct (process_ubi s u) as [s1| |] eqn:E; [| apply IH; assumption | discriminate].
+  - destruct (ubi_due cf (s_now s) u); [|apply IH; assumption].
+    destruct (process_ubi cf s u) as [s1| |] eqn:E; [| apply IH; assumption | discriminate].
     apply process_ubi_blocked in E; [|assumption]. subst s1. apply IH; assumption.
 Qed.
 Lemma allocate_blocked : forall s s',
@@ -306,24 +306,24 @@ Proof.
 Qed.
 
 (* no minting at all (inflation or UBI) in a block that starts with the gate closed *)
-Lemma no_mint_after_annual_max_lemma : forall s dt s1 s2 s3,
+Lemma no_mint_after_annual_max_lemma : forall cf s dt s1 s2 s3,
   0 <= p_maxann (s_params s) ->
   spec_gate_closed (s_ysnap s) (p_maxann (s_params s)) (nat_supply s) (s_now s + dt) = true ->
-  block_parts s dt = Ok (s1, s2, s3) ->
+  block_parts cf s dt = Ok (s1, s2, s3) ->
   nat_supply s1 = nat_supply s /\ nat_supply s2 = nat_supply s /\ nat_supply s3 = nat_supply s.
 Proof.
-  intros s dt s1 s2 s3 Hm Hg. unfold block_parts.
+  intros cf s dt s1 s2 s3 Hm Hg. unfold block_parts.
   set (s0 := set_time s (s_now s + dt) (s_height s + 1)).
   assert (Hn : inflation_possible (s_ysnap s0) (p_maxann (s_params s0)) (nat_supply s0) (s_now s0) <> Ok true)
     by (apply gate_closed_blocks; assumption).
   destruct (1 <? s_height s0).
   - destruct (allocate s0) as [x| |] eqn:EA; cbn [bind]; try discriminate.
     apply allocate_blocked in EA; [|assumption]. subst x.
-    destruct (ubi_end (s_ubis s0) s0) as [y| |] eqn:EU; cbn [bind]; try discriminate.
+    destruct (ubi_end cf (s_ubis s0) s0) as [y| |] eqn:EU; cbn [bind]; try discriminate.
     apply ubi_end_blocked in EU; [|assumption]. subst y.
     intros H; inversion H; subst. repeat split; reflexivity.
   - cbn [bind].
-    destruct (ubi_end (s_ubis s0) s0) as [y| |] eqn:EU; cbn [bind]; try discriminate.
+    destruct (ubi_end cf (s_ubis s0) s0) as [y| |] eqn:EU; cbn [bind]; try discriminate.
     apply ubi_end_blocked in EU; [|assumption]. subst y.
     intros H; inversion H; subst. repeat split; reflexivity.
 Qed.
@@ -359,7 +359,7 @@ Proof.
   change (fold_right Z.add 0) with zsum. pose proof (ubi_term_nonneg u Hu). lia.
 Qed.
 
-Lemma ubi_sum_exact : forall us acc r, Forall ubi_small us -> 0 <= acc ->
+Lemma ubi_sum_nowrap : forall us acc r, Forall ubi_small us -> 0 <= acc ->
   acc + zsum (map ubi_exact_term us) < two64 ->
   ubi_sum us acc = Ok r -> r = acc + zsum (map ubi_exact_term us).
 Proof.
@@ -386,19 +386,20 @@ Proof.
   destruct (u_name u <? u_name v); cbn [map zsum fold_right]; change (fold_right Z.add 0) with zsum; lia.
 Qed.
 
-Lemma ubi_within_hardcap_lemma : forall s name amount period start end_ pool s',
+Lemma ubi_within_hardcap_lemma : forall cf s name amount period start end_ pool s',
+  cf_ubi_exact cf = false ->
   no_u64_overflow (s_ubis s) amount period ->
-  ubi_upsert s name amount period start end_ pool = Ok s' ->
+  ubi_upsert cf s name amount period start end_ pool = Ok s' ->
   spec_ubi_yearly (s_ubis s') <= p_hardcap (s_params s') /\ p_hardcap (s_params s') = p_hardcap (s_params s).
 Proof.
-  intros s name amount period start end_ pool s' (Hs & Ha & Hp & Hm & Hb). unfold ubi_upsert.
+  intros cf s name amount period start end_ pool s' Hcf (Hs & Ha & Hp & Hm & Hb). unfold ubi_upsert. rewrite Hcf.
   destruct (aget pool (s_pools s)); [|discriminate].
   rewrite spec_ubi_yearly_eq in Hb.
   pose proof (ubi_yearly_nonneg _ Hs) as Hy.
   assert (Hq : 0 <= amount * 31556952 / period).
   { destruct (Z.eq_dec period 0) as [E|E]; [rewrite E, Zdiv_0_r; lia|]. apply Z.div_pos; lia. }
   destruct (ubi_sum (s_ubis s) 0) as [sum| |] eqn:ES; cbn [bind]; try discriminate.
-  apply ubi_sum_exact in ES; [|assumption|lia|lia]. cbn in ES.
+  apply ubi_sum_nowrap in ES; [|assumption|lia|lia]. cbn in ES.
   unfold ubi_term. destruct (period =? 0) eqn:E; cbn [bind]; [discriminate|].
   rewrite (wrap64_small (amount * year_seconds)) by (unfold year_seconds; lia).
   unfold year_seconds. rewrite wrap64_small by lia.
@@ -409,28 +410,87 @@ Proof.
   unfold ubi_exact_term at 3 in Hi. cbn [u_amount u_period] in Hi. lia.
 Qed.
 
-(* without the no-overflow hypothesis the statement is false: amount = 2^63 makes
-   amount * 31556952 wrap to 0, the record passes any hard cap *)
+(* the repaired handler (sdk.Int arithmetic): NO overflow hypothesis, only the uint64 domain *)
+Definition ubi_dom (u : ubi) : Prop := 0 <= u_amount u /\ 0 <= u_period u.
+Lemma ubi_dom_term_nonneg : forall u, ubi_dom u -> 0 <= ubi_exact_term u.
+Proof.
+  intros u (Ha & Hp). unfold ubi_exact_term.
+  destruct (Z.eq_dec (u_period u) 0) as [E|E]; [rewrite E, Zdiv_0_r; lia|]. apply Z.div_pos; lia.
+Qed.
+Lemma ubi_sum_exact_val : forall us acc r, ubi_sum_exact us acc = Ok r -> r = acc + zsum (map ubi_exact_term us).
+Proof.
+  induction us as [|u us IH]; intros acc r; cbn [ubi_sum_exact map zsum fold_right].
+  - intros H; inversion H; lia.
+  - change (fold_right Z.add 0) with zsum. destruct (u_period u =? 0); [discriminate|].
+    intros H. apply IH in H. unfold ubi_exact_term at 1. unfold year_seconds in H. lia.
+Qed.
+Lemma ubi_insert_yearly_dom : forall u us, Forall ubi_dom us ->
+  zsum (map ubi_exact_term (ubi_insert u us)) <= zsum (map ubi_exact_term us) + ubi_exact_term u.
+Proof.
+  intros u us H. induction H as [|v r Hv Hr IH]; cbn [ubi_insert map zsum fold_right]; [lia|].
+  change (fold_right Z.add 0) with zsum in *.
+  pose proof (ubi_dom_term_nonneg v Hv).
+  destruct (u_name v =? u_name u); cbn [map zsum fold_right]; change (fold_right Z.add 0) with zsum; [lia|].
+  destruct (u_name u <? u_name v); cbn [map zsum fold_right]; change (fold_right Z.add 0) with zsum; lia.
+Qed.
+Lemma ubi_within_hardcap_exact_lemma : forall cf s name amount period start end_ pool s',
+  cf_ubi_exact cf = true -> Forall ubi_dom (s_ubis s) ->
+  ubi_upsert cf s name amount period start end_ pool = Ok s' ->
+  spec_ubi_yearly (s_ubis s') <= p_hardcap (s_params s') /\ p_hardcap (s_params s') = p_hardcap (s_params s) /\ period <> 0.
+Proof.
+  intros cf s name amount period start end_ pool s' Hcf Hs. unfold ubi_upsert. rewrite Hcf.
+  destruct (aget pool (s_pools s)); [|discriminate].
+  destruct (period =? 0) eqn:E; [discriminate|].
+  destruct (ubi_sum_exact (s_ubis s) 0) as [sum| |] eqn:ES; cbn [bind]; try discriminate.
+  apply ubi_sum_exact_val in ES.
+  destruct (p_hardcap (s_params s) <? sum + amount * year_seconds / period) eqn:EH; [discriminate|].
+  intros H; inversion H; subst s'; clear H. unfold set_ubis. cbn [s_ubis s_params].
+  split; [|split; [reflexivity|lia]]. rewrite spec_ubi_yearly_eq.
+  pose proof (ubi_insert_yearly_dom (mkUbi name amount period start end_ false pool) _ Hs) as Hi.
+  unfold ubi_exact_term at 3 in Hi. cbn [u_amount u_period] in Hi. unfold year_seconds in EH. lia.
+Qed.
+
+(* without the no-overflow hypothesis the statement is false for the uint64 handler: amount = 2^63
+   makes amount * 31556952 wrap to 0, the record passes any hard cap *)
 Definition ubi_wrap_state : st :=
   mkSt 1700000000 1 (mkParams 180000000000000000 31557600 350000000000000000 7000000) (mkSnap 0 None) (mkSnap 0 None)
        [(0, 1000)] [] [] [mkUbi 0 500000 2592000 0 0 true 0] [(0, 0)].
-Lemma ubi_overflow_refuted_lemma : exists s name amount period start end_ pool s',
-  0 <= amount < two64 /\ 0 < period < two64 /\
-  ubi_upsert s name amount period start end_ pool = Ok s' /\
+Lemma ubi_overflow_refuted_lemma : forall cf, cf_ubi_exact cf = false ->
+  exists s name amount period start end_ pool s',
+  Forall ubi_dom (s_ubis s) /\ 0 <= amount < two64 /\ 0 < period < two64 /\
+  ubi_upsert cf s name amount period start end_ pool = Ok s' /\
   p_hardcap (s_params s') < spec_ubi_yearly (s_ubis s').
 Proof.
-  exists ubi_wrap_state, 1, 9223372036854775808, 2592000, 0, 0, 0.
-  eexists. split; [vm_compute; split; congruence|]. split; [vm_compute; split; congruence|].
-  split; [vm_compute; reflexivity|]. vm_compute. reflexivity.
+  intros cf Hcf. exists ubi_wrap_state, 1, 9223372036854775808, 2592000, 0, 0, 0.
+  eexists. split; [repeat constructor; vm_compute; congruence|].
+  split; [vm_compute; split; congruence|]. split; [vm_compute; split; congruence|].
+  split; [unfold ubi_upsert; rewrite Hcf; vm_compute; reflexivity|]. vm_compute. reflexivity.
 Qed.
 
-(* a second way round the yearly budget: DistributionLast + Period wraps in uint64, so a record
-   whose period never elapses is due in every block *)
-Lemma ubi_period_wrap_due : exists u now, 0 <= u_last u < two64 /\ 0 <= u_period u < two64 /\
-  u_last u <= now < u_last u + u_period u /\ ubi_due now u = true.
+(* a second way round the yearly budget (wrapping due test): DistributionLast + Period wraps in
+   uint64, so a record whose period never elapses is due in every block *)
+Lemma ubi_period_wrap_due : forall cf, cf_ubi_due_exact cf = false ->
+  exists u now, 0 <= u_last u < two64 /\ 0 <= u_period u < two64 /\
+  u_last u <= now < u_last u + u_period u /\ ubi_due cf now u = true.
 Proof.
-  exists (mkUbi 2 3 18446744073709551615 1700000000 0 false 0), 1700000005.
-  vm_compute. repeat split; congruence.
+  intros cf Hcf. exists (mkUbi 2 3 18446744073709551615 1700000000 0 false 0), 1700000005.
+  unfold ubi_due. rewrite Hcf. vm_compute. repeat split; congruence.
+Qed.
+(* the repaired due test: due only when the period has really elapsed *)
+Lemma ubi_due_exact_elapsed : forall cf now u, cf_ubi_due_exact cf = true -> ubi_due cf now u = true ->
+  u_last u + u_period u < now.
+Proof. intros cf now u Hcf. unfold ubi_due. rewrite Hcf. lia. Qed.
+
+Lemma ubi_upsert_shape : forall cf s name amount period start end_ pool s',
+  ubi_upsert cf s name amount period start end_ pool = Ok s' ->
+  s' = set_ubis s (ubi_insert (mkUbi name amount period start end_ false pool) (s_ubis s)).
+Proof.
+  intros cf s name amount period start end_ pool s'. unfold ubi_upsert.
+  destruct (aget pool (s_pools s)); [|discriminate]. destruct (cf_ubi_exact cf).
+  - destruct (period =? 0); [discriminate|]. destruct (ubi_sum_exact _ _); cbn [bind]; try discriminate.
+    destruct (_ <? _); [discriminate|]. intros H; inversion H; reflexivity.
+  - destruct (ubi_sum _ _); cbn [bind]; try discriminate. destruct (ubi_term _ _); cbn [bind]; try discriminate.
+    destruct (_ <? _); [discriminate|]. intros H; inversion H; reflexivity.
 Qed.
 
 (* ================================================================ token registry *)
@@ -525,10 +585,10 @@ Proof.
   - intros H; inversion H; subst; split; [apply view_pres_refl|split; [auto|lia]].
 Qed.
 
-Lemma process_ubi_view : forall s u s', process_ubi s u = Ok s' ->
+Lemma process_ubi_view : forall cf s u s', process_ubi cf s u = Ok s' ->
   view_pres s s' /\ (cap_ok (s_reg s) -> cap_ok (s_reg s')) /\ nat_supply s <= nat_supply s'.
 Proof.
-  intros s u s'. unfold process_ubi.
+  intros cf s u s'. unfold process_ubi.
   destruct (inflation_possible _ _ _ _) as [ip| |]; cbn [bind]; try discriminate.
   destruct (negb ip); [intros H; inversion H; subst; split; [apply view_pres_refl|split; [auto|lia]]|].
   set (s1 := set_ubis s _).
@@ -546,22 +606,22 @@ Proof.
   - subst s1. unfold nat_supply, supply_of, set_pools, set_ubis in *. cbn [s_bank] in *. lia.
 Qed.
 
-Lemma ubi_end_view : forall us s s', ubi_end us s = Ok s' ->
+Lemma ubi_end_view : forall cf us s s', ubi_end cf us s = Ok s' ->
   view_pres s s' /\ (cap_ok (s_reg s) -> cap_ok (s_reg s')) /\ nat_supply s <= nat_supply s'.
 Proof.
-  induction us as [|u r IH]; intros s s'; cbn [ubi_end].
+  intros cf. induction us as [|u r IH]; intros s s'; cbn [ubi_end].
   - intros H; inversion H; subst. split; [apply view_pres_refl|split; [auto|lia]].
-  - destruct (ubi_due (s_now s) u); [|apply IH].
-    destruct (process_ubi s u) as [s1| |] eqn:E; [|apply IH|discriminate].
-    intros H. destruct (process_ubi_view _ _ _ E) as (V1 & C1 & N1). destruct (IH _ _ H) as (V2 & C2 & N2).
+  - destruct (ubi_due cf (s_now s) u); [|apply IH].
+    destruct (process_ubi cf s u) as [s1| |] eqn:E; [|apply IH|discriminate].
+    intros H. destruct (process_ubi_view _ _ _ _ E) as (V1 & C1 & N1). destruct (IH _ _ H) as (V2 & C2 & N2).
     split; [eapply view_pres_trans; eassumption|split; [auto|lia]].
 Qed.
 
-Lemma block_parts_view : forall s dt s1 s2 s3, block_parts s dt = Ok (s1, s2, s3) ->
+Lemma block_parts_view : forall cf s dt s1 s2 s3, block_parts cf s dt = Ok (s1, s2, s3) ->
   view_pres s s3 /\ (cap_ok (s_reg s) -> cap_ok (s_reg s3))
   /\ nat_supply s <= nat_supply s1 <= nat_supply s2 /\ nat_supply s3 = nat_supply s2.
 Proof.
-  intros s dt s1 s2 s3. unfold block_parts.
+  intros cf s dt s1 s2 s3. unfold block_parts.
   set (s0 := set_time s (s_now s + dt) (s_height s + 1)).
   assert (V0 : view_pres s s0) by (apply view_pres_same; reflexivity).
   assert (A : forall x, (if 1 <? s_height s0 then allocate s0 else Ok s0) = Ok x ->
@@ -570,8 +630,8 @@ Proof.
     intros H; inversion H; subst. split; [apply view_pres_refl|split; [auto|lia]]. }
   destruct (if 1 <? s_height s0 then allocate s0 else Ok s0) as [x| |]; cbn [bind]; try discriminate.
   destruct (A x eq_refl) as (VA & CA & NA).
-  destruct (ubi_end (s_ubis x) x) as [y| |] eqn:EU; cbn [bind]; try discriminate.
-  destruct (ubi_end_view _ _ _ EU) as (VU & CU & NU).
+  destruct (ubi_end cf (s_ubis x) x) as [y| |] eqn:EU; cbn [bind]; try discriminate.
+  destruct (ubi_end_view _ _ _ _ EU) as (VU & CU & NU).
   intros H; inversion H; subst s1 s2 s3; clear H.
   split; [|split; [|split]].
   - eapply view_pres_trans; [exact V0|]. eapply view_pres_trans; [exact VA|]. eapply view_pres_trans; [exact VU|].
@@ -582,33 +642,33 @@ Proof.
 Qed.
 
 (* ---------------------------------------------------------------- msg server / proposal characterisation *)
-Lemma upsert_msg_existing : forall strict s actor perm d supply cap owner noedit fee sc s' t,
-  upsert_msg strict s actor perm d supply cap owner noedit fee sc = Ok s' -> aget d (s_reg s) = Some t ->
-  actor = t_owner t /\ t_noedit t = false /\ (t_cap t <> 0 -> cap <= t_cap t /\ cap <> 0 /\ (strict = true -> 0 < cap))
+Lemma upsert_msg_existing : forall cf s actor perm d supply cap owner noedit fee sc s' t,
+  upsert_msg cf s actor perm d supply cap owner noedit fee sc = Ok s' -> aget d (s_reg s) = Some t ->
+  actor = t_owner t /\ t_noedit t = false /\ (t_cap t <> 0 -> cap <= t_cap t /\ cap <> 0 /\ (cf_cap_strict cf = true -> 0 < cap))
   /\ aget d (s_reg s') = Some (mkTok (t_supply t) cap owner noedit (t_fee t) (t_stakecap t))
   /\ (forall d', d' <> d -> aget d' (s_reg s') = aget d' (s_reg s)) /\ s_bank s' = s_bank s
   /\ (0 < cap -> t_supply t <= cap).
 Proof.
-  intros strict s actor perm d supply cap owner noedit fee sc s' t. unfold upsert_msg.
+  intros cf s actor perm d supply cap owner noedit fee sc s' t. unfold upsert_msg.
   destruct (d =? native); [discriminate|]. destruct (fee <=? 0); [discriminate|].
   destruct (sc <? 0); [discriminate|]. destruct (PREC <? sc); [discriminate|].
   intros H Ht. rewrite Ht in H.
   destruct (negb (t_owner t =? actor) || t_noedit t) eqn:E1; [discriminate|].
-  destruct (negb (t_cap t =? 0) && ((t_cap t <? cap) || (if strict then cap <=? 0 else cap =? 0))) eqn:E2; [discriminate|].
+  destruct (negb (t_cap t =? 0) && ((t_cap t <? cap) || (if cf_cap_strict cf then cap <=? 0 else cap =? 0))) eqn:E2; [discriminate|].
   destruct (reg_upsert _ _ _) as [reg'| |] eqn:ER; cbn [bind] in H; try discriminate.
   inversion H; subst s'; clear H. destruct (reg_upsert_get _ _ _ _ ER) as (Hd & Ho & Hk).
   cbn [s_reg s_bank set_reg]. cbn [t_cap t_supply] in Hk.
   apply Bool.orb_false_iff in E1. destruct E1 as [E1a E1b].
-  repeat split; try assumption; try (destruct strict; lia).
+  repeat split; try assumption; try (destruct (cf_cap_strict cf); lia).
 Qed.
 
-Lemma upsert_msg_new : forall strict s actor perm d supply cap owner noedit fee sc s',
-  upsert_msg strict s actor perm d supply cap owner noedit fee sc = Ok s' -> aget d (s_reg s) = None ->
+Lemma upsert_msg_new : forall cf s actor perm d supply cap owner noedit fee sc s',
+  upsert_msg cf s actor perm d supply cap owner noedit fee sc = Ok s' -> aget d (s_reg s) = None ->
   perm = true /\ aget d (s_reg s') = Some (mkTok supply cap owner noedit fee sc)
   /\ (forall d', d' <> d -> aget d' (s_reg s') = aget d' (s_reg s)) /\ s_bank s' = s_bank s
   /\ (0 < cap -> supply <= cap).
 Proof.
-  intros strict s actor perm d supply cap owner noedit fee sc s'. unfold upsert_msg.
+  intros cf s actor perm d supply cap owner noedit fee sc s'. unfold upsert_msg.
   destruct (d =? native); [discriminate|]. destruct (fee <=? 0); [discriminate|].
   destruct (sc <? 0); [discriminate|]. destruct (PREC <? sc); [discriminate|].
   intros H Ht. rewrite Ht in H. destruct perm; [|discriminate]. cbn [negb] in H.
@@ -636,10 +696,11 @@ Proof. intros s a d amt s'. unfold debit. destruct (_ <? _); [discriminate|]. in
 Lemma credit_same : forall s a d amt, s_reg (credit s a d amt) = s_reg s /\ s_bank (credit s a d amt) = s_bank s.
 Proof. intros. unfold credit. destruct (a =? 0); split; reflexivity. Qed.
 
-Lemma mint_issue_view : forall s actor d amt s', mint_issue s actor d amt = Ok s' ->
+Lemma mint_issue_view : forall cf s actor d amt s', mint_issue cf s actor d amt = Ok s' ->
   view_pres s s' /\ (cap_ok (s_reg s) -> cap_ok (s_reg s')) /\ 0 < amt /\ s_bank s' = zadd d amt (s_bank s).
 Proof.
-  intros s actor d amt s'. unfold mint_issue.
+  intros cf s actor d amt s'. unfold mint_issue.
+  destruct (cf_mint_native_refused cf && (d =? native)); [discriminate|].
   destruct (aget d (s_reg s)) as [t|]; [|discriminate].
   match goal with |- (do s1 <- ?X; _) = _ -> _ => destruct X as [s1| |] eqn:E1 end; cbn [bind]; try discriminate.
   assert (S1 : s_reg s1 = s_reg s /\ s_bank s1 = s_bank s).
@@ -688,16 +749,14 @@ Proof.
   - rewrite Ho in Hg by assumption. eapply Hc; eassumption.
 Qed.
 
-Lemma step_cap_ok : forall strict s o s', step strict s o = Ok s' -> cap_ok (s_reg s) -> cap_ok (s_reg s').
+Lemma step_cap_ok : forall cf s o s', step cf s o = Ok s' -> cap_ok (s_reg s) -> cap_ok (s_reg s').
 Proof.
-  intros strict s o s' H Hc. destruct o; cbn [step] in H.
-  - destruct (block_parts s dt) as [[[s1 s2] s3]| |] eqn:E; cbn [bind] in H; try discriminate.
-    inversion H; subst s'. cbn [snd]. destruct (block_parts_view _ _ _ _ _ E) as (_ & C & _). auto.
+  intros cf s o s' H Hc. destruct o; cbn [step] in H.
+  - destruct (block_parts cf s dt) as [[[s1 s2] s3]| |] eqn:E; cbn [bind] in H; try discriminate.
+    inversion H; subst s'. cbn [snd]. destruct (block_parts_view _ _ _ _ _ _ E) as (_ & C & _). auto.
   - inversion H; subst; exact Hc.
   - inversion H; subst; exact Hc.
-  - unfold ubi_upsert in H. destruct (aget pool (s_pools s)); [|discriminate].
-    destruct (ubi_sum _ _); cbn [bind] in H; try discriminate. destruct (ubi_term _ _); cbn [bind] in H; try discriminate.
-    destruct (_ <? _); [discriminate|]. inversion H; subst; exact Hc.
+  - apply ubi_upsert_shape in H. subst s'. exact Hc.
   - unfold ubi_delete in H. destruct (ubi_remove _ _); [|discriminate]. inversion H; subst; exact Hc.
   - destruct (aget d (s_reg s)) as [t|] eqn:Et.
     + destruct (upsert_msg_existing _ _ _ _ _ _ _ _ _ _ _ _ _ H Et) as (_ & _ & _ & Hd & Ho & _ & Hk).
@@ -706,45 +765,43 @@ Proof.
       eapply cap_ok_update; [exact Hc|exact Hd|exact Ho|exact Hk].
   - destruct (prop_upsert_char _ _ _ _ _ _ _ _ _ H) as (Hd & Ho & _ & Hk).
     eapply cap_ok_update; [exact Hc|exact Hd|exact Ho|exact Hk].
-  - destruct (mint_issue_view _ _ _ _ _ H) as (_ & C & _). auto.
+  - destruct (mint_issue_view _ _ _ _ _ _ H) as (_ & C & _). auto.
   - destruct (mint_burn_view _ _ _ _ _ H) as (_ & C & _). auto.
   - destruct (debit_same _ _ _ _ _ H) as [R _]. rewrite R. exact Hc.
 Qed.
 
-Lemma step_total_cap_ok : forall strict s o, cap_ok (s_reg s) -> cap_ok (s_reg (step_total strict s o)).
+Lemma step_total_cap_ok : forall cf s o, cap_ok (s_reg s) -> cap_ok (s_reg (step_total cf s o)).
 Proof.
-  intros strict s o Hc. unfold step_total. destruct (step strict s o) as [s'| |] eqn:E; try exact Hc. eapply step_cap_ok; eassumption.
+  intros cf s o Hc. unfold step_total. destruct (step cf s o) as [s'| |] eqn:E; try exact Hc. eapply step_cap_ok; eassumption.
 Qed.
-Lemma run_cap_ok : forall strict ops s, cap_ok (s_reg s) -> cap_ok (s_reg (run strict s ops)).
+Lemma run_cap_ok : forall cf ops s, cap_ok (s_reg s) -> cap_ok (s_reg (run cf s ops)).
 Proof.
-  intros strict. induction ops as [|o r IH]; intros s Hc; [exact Hc|]. unfold run. cbn [fold_left]. apply IH. apply step_total_cap_ok. exact Hc.
+  intros cf. induction ops as [|o r IH]; intros s Hc; [exact Hc|]. unfold run. cbn [fold_left]. apply IH. apply step_total_cap_ok. exact Hc.
 Qed.
 
 (* ---------------------------------------------------------------- recorded supply tracks mints *)
 (* every operation keeps the offset (recorded - bank supply) of every REGISTERED token; the only way
    to set a recorded supply freely is to register a new token *)
-Lemma step_view : forall strict s o s' d t, step strict s o = Ok s' -> aget d (s_reg s) = Some t ->
+Lemma step_view : forall cf s o s' d t, step cf s o = Ok s' -> aget d (s_reg s) = Some t ->
   offset s' d = offset s d /\
   exists t', aget d (s_reg s') = Some t' /\
     (t_cap t' = t_cap t \/
      exists actor perm supply cap owner noedit fee sc,
        o = OUpsertMsg actor perm d supply cap owner noedit fee sc /\ t_cap t' = cap /\ actor = t_owner t /\ t_noedit t = false
-       /\ (t_cap t <> 0 -> cap <= t_cap t /\ cap <> 0 /\ (strict = true -> 0 < cap))).
+       /\ (t_cap t <> 0 -> cap <= t_cap t /\ cap <> 0 /\ (cf_cap_strict cf = true -> 0 < cap))).
 Proof.
-  intros strict s o s' d t H Ht.
+  intros cf s o s' d t H Ht.
   assert (VP : view_pres s s' -> offset s' d = offset s d /\ exists t', aget d (s_reg s') = Some t' /\
                  (t_cap t' = t_cap t \/ exists actor perm supply cap owner noedit fee sc,
                     o = OUpsertMsg actor perm d supply cap owner noedit fee sc /\ t_cap t' = cap /\ actor = t_owner t /\ t_noedit t = false
-                    /\ (t_cap t <> 0 -> cap <= t_cap t /\ cap <> 0 /\ (strict = true -> 0 < cap)))).
+                    /\ (t_cap t <> 0 -> cap <= t_cap t /\ cap <> 0 /\ (cf_cap_strict cf = true -> 0 < cap)))).
   { intros V. destruct (V d) as [O T]. split; [exact O|]. destruct (T t Ht) as (t' & Ht' & S). exists t'. split; [exact Ht'|left; apply S]. }
   destruct o; cbn [step] in H.
-  - destruct (block_parts s dt) as [[[s1 s2] s3]| |] eqn:E; cbn [bind] in H; try discriminate.
-    inversion H; subst s'. cbn [snd] in *. apply VP. destruct (block_parts_view _ _ _ _ _ E) as (V & _). exact V.
+  - destruct (block_parts cf s dt) as [[[s1 s2] s3]| |] eqn:E; cbn [bind] in H; try discriminate.
+    inversion H; subst s'. cbn [snd] in *. apply VP. destruct (block_parts_view _ _ _ _ _ _ E) as (V & _). exact V.
   - inversion H; subst. apply VP, view_pres_same; reflexivity.
   - inversion H; subst. apply VP, view_pres_same; reflexivity.
-  - unfold ubi_upsert in H. destruct (aget pool (s_pools s)); [|discriminate].
-    destruct (ubi_sum _ _); cbn [bind] in H; try discriminate. destruct (ubi_term _ _); cbn [bind] in H; try discriminate.
-    destruct (_ <? _); [discriminate|]. inversion H; subst. apply VP, view_pres_same; reflexivity.
+  - apply ubi_upsert_shape in H. subst s'. apply VP, view_pres_same; reflexivity.
   - unfold ubi_delete in H. destruct (ubi_remove _ _); [|discriminate]. inversion H; subst. apply VP, view_pres_same; reflexivity.
   - (* OUpsertMsg *)
     destruct (Z.eq_dec d0 d) as [E|E].
@@ -769,163 +826,154 @@ Proof.
     + split.
       * unfold offset, reg_supply, supply_of. rewrite Ho, Hb by auto. reflexivity.
       * exists t. split; [rewrite Ho by auto; exact Ht|left; reflexivity].
-  - apply VP. destruct (mint_issue_view _ _ _ _ _ H) as (V & _). exact V.
+  - apply VP. destruct (mint_issue_view _ _ _ _ _ _ H) as (V & _). exact V.
   - apply VP. destruct (mint_burn_view _ _ _ _ _ H) as (V & _). exact V.
   - destruct (debit_same _ _ _ _ _ H) as [R B]. apply VP, view_pres_same; assumption.
 Qed.
 
-Lemma run_offset : forall strict ops s d, aget d (s_reg s) <> None ->
-  offset (run strict s ops) d = offset s d /\ aget d (s_reg (run strict s ops)) <> None.
+Lemma run_offset : forall cf ops s d, aget d (s_reg s) <> None ->
+  offset (run cf s ops) d = offset s d /\ aget d (s_reg (run cf s ops)) <> None.
 Proof.
-  intros strict. induction ops as [|o r IH]; intros s d Hr; [split; [reflexivity|exact Hr]|].
-  unfold run. cbn [fold_left]. fold (run strict (step_total strict s o) r).
-  assert (Hs : offset (step_total strict s o) d = offset s d /\ aget d (s_reg (step_total strict s o)) <> None).
-  { unfold step_total. destruct (step strict s o) as [s'| |] eqn:E; [|split; [reflexivity|exact Hr]..].
+  intros cf. induction ops as [|o r IH]; intros s d Hr; [split; [reflexivity|exact Hr]|].
+  unfold run. cbn [fold_left]. fold (run cf (step_total cf s o) r).
+  assert (Hs : offset (step_total cf s o) d = offset s d /\ aget d (s_reg (step_total cf s o)) <> None).
+  { unfold step_total. destruct (step cf s o) as [s'| |] eqn:E; [|split; [reflexivity|exact Hr]..].
     destruct (aget d (s_reg s)) as [t|] eqn:Et; [|congruence].
     destruct (step_view _ _ _ _ _ _ E Et) as (O & t' & Ht' & _). split; [exact O|congruence]. }
   destruct Hs as [O1 R1]. destruct (IH _ _ R1) as [O2 R2]. split; [congruence|exact R2].
 Qed.
 
 (* ================================================================ the owner and the cap *)
-Lemma owner_cap_partial_lemma : forall strict s actor perm d supply cap owner noedit fee sc s' t,
-  upsert_msg strict s actor perm d supply cap owner noedit fee sc = Ok s' -> aget d (s_reg s) = Some t -> 0 < t_cap t ->
+Lemma owner_cap_partial_lemma : forall cf s actor perm d supply cap owner noedit fee sc s' t,
+  upsert_msg cf s actor perm d supply cap owner noedit fee sc = Ok s' -> aget d (s_reg s) = Some t -> 0 < t_cap t ->
   actor = t_owner t /\ exists t', aget d (s_reg s') = Some t' /\ t_cap t' = cap /\ cap <= t_cap t /\ cap <> 0
                                  /\ t_supply t' = t_supply t.
 Proof.
-  intros strict s actor perm d supply cap owner noedit fee sc s' t H Ht Hp.
+  intros cf s actor perm d supply cap owner noedit fee sc s' t H Ht Hp.
   destruct (upsert_msg_existing _ _ _ _ _ _ _ _ _ _ _ _ _ H Ht) as (Ha & _ & Hcap & Hd & _).
   split; [exact Ha|]. eexists. split; [exact Hd|]. cbn [t_cap t_supply]. destruct (Hcap ltac:(lia)) as (? & ? & _). repeat split; assumption.
 Qed.
 
-Lemma owner_cap_guarded_lemma : forall strict s actor perm d supply cap owner noedit fee sc s' t,
+Lemma owner_cap_guarded_lemma : forall cf s actor perm d supply cap owner noedit fee sc s' t,
   0 <= cap ->
-  upsert_msg strict s actor perm d supply cap owner noedit fee sc = Ok s' -> aget d (s_reg s) = Some t -> 0 < t_cap t ->
+  upsert_msg cf s actor perm d supply cap owner noedit fee sc = Ok s' -> aget d (s_reg s) = Some t -> 0 < t_cap t ->
   exists t', aget d (s_reg s') = Some t' /\ 0 < t_cap t' <= t_cap t.
 Proof.
-  intros strict s actor perm d supply cap owner noedit fee sc s' t Hc H Ht Hp.
+  intros cf s actor perm d supply cap owner noedit fee sc s' t Hc H Ht Hp.
   destruct (owner_cap_partial_lemma _ _ _ _ _ _ _ _ _ _ _ _ _ H Ht Hp) as (_ & t' & Hd & E & Hle & Hne & _).
   exists t'. split; [exact Hd|lia].
 Qed.
 
-(* with the strict guard the full statement holds, whatever the message carries *)
-Lemma owner_cap_strict_lemma : forall s actor perm d supply cap owner noedit fee sc s' t,
-  upsert_msg true s actor perm d supply cap owner noedit fee sc = Ok s' -> aget d (s_reg s) = Some t -> 0 < t_cap t ->
+(* with the cf guard the full statement holds, whatever the message carries *)
+Lemma owner_cap_strict_lemma : forall cf, cf_cap_strict cf = true ->
+  forall s actor perm d supply cap owner noedit fee sc s' t,
+  upsert_msg cf s actor perm d supply cap owner noedit fee sc = Ok s' -> aget d (s_reg s) = Some t -> 0 < t_cap t ->
   exists t', aget d (s_reg s') = Some t' /\ 0 < t_cap t' <= t_cap t.
 Proof.
-  intros s actor perm d supply cap owner noedit fee sc s' t H Ht Hp.
+  intros cf Hcf s actor perm d supply cap owner noedit fee sc s' t H Ht Hp.
   destruct (upsert_msg_existing _ _ _ _ _ _ _ _ _ _ _ _ _ H Ht) as (_ & _ & Hcap & Hd & _).
-  destruct (Hcap ltac:(lia)) as (? & ? & Hs). specialize (Hs eq_refl).
+  destruct (Hcap ltac:(lia)) as (? & ? & Hs). specialize (Hs Hcf).
   eexists. split; [exact Hd|]. cbn [t_cap]. lia.
 Qed.
 
-(* the full statement is false: a NEGATIVE cap passes both guards (msg server: not greater, not zero;
-   keeper: the cap check is skipped unless the cap is positive) and disables the cap *)
+(* for the guard as first found the full statement is false: a NEGATIVE cap passes both guards (msg
+   server: not greater, not zero; keeper: the cap check is skipped unless the cap is positive) *)
 Definition negcap_state : st :=
   mkSt 1700000000 1 (mkParams 180000000000000000 31557600 350000000000000000 6000000) (mkSnap 0 None) (mkSnap 0 None)
        [(0, 1000000)] [] [(4, mkTok 1000 1000 1 false PREC 0)] [] [(0, 0)].
-Lemma owner_cap_refuted_lemma : exists s actor d cap s1 s2 t,
+Lemma owner_cap_refuted_lemma : forall cf, cf_cap_strict cf = false ->
+  exists s actor d cap s1 s2 t,
   aget d (s_reg s) = Some t /\ 0 < t_cap t /\ t_owner t = actor /\
-  upsert_msg false s actor false d 0 cap actor false PREC 0 = Ok s1 /\
+  upsert_msg cf s actor false d 0 cap actor false PREC 0 = Ok s1 /\
   (exists t1, aget d (s_reg s1) = Some t1 /\ t_cap t1 < 0) /\
-  mint_issue s1 actor d 5000 = Ok s2 /\
+  mint_issue cf s1 actor d 5000 = Ok s2 /\
   (exists t2, aget d (s_reg s2) = Some t2 /\ t_cap t < t_supply t2).
 Proof.
+  intros [c1 c2 c3 c4 c5] Hcf. cbn in Hcf. subst c1.
   exists negcap_state, 1, 4, (-1). do 3 eexists.
   split; [vm_compute; reflexivity|]. split; [vm_compute; reflexivity|]. split; [reflexivity|].
   split; [vm_compute; reflexivity|]. split; [eexists; split; vm_compute; reflexivity|].
-  split; [vm_compute; reflexivity|]. eexists; split; vm_compute; reflexivity.
+  split; [destruct c5; vm_compute; reflexivity|]. eexists; split; vm_compute; reflexivity.
 Qed.
 
-Lemma owner_cap_statement_refuted :
+Lemma owner_cap_statement_refuted : forall cf, cf_cap_strict cf = false ->
   ~ (forall s actor perm d supply cap owner noedit fee sc s' t,
-       upsert_msg false s actor perm d supply cap owner noedit fee sc = Ok s' -> aget d (s_reg s) = Some t -> 0 < t_cap t ->
+       upsert_msg cf s actor perm d supply cap owner noedit fee sc = Ok s' -> aget d (s_reg s) = Some t -> 0 < t_cap t ->
        exists t', aget d (s_reg s') = Some t' /\ 0 < t_cap t' <= t_cap t).
 Proof.
-  intros H. destruct owner_cap_refuted_lemma as (s & actor & d & cap & s1 & s2 & t & H1 & H2 & H3 & H4 & (t1 & H5 & H6) & _).
+  intros cf Hcf H. destruct (owner_cap_refuted_lemma cf Hcf) as (s & actor & d & cap & s1 & s2 & t & H1 & H2 & H3 & H4 & (t1 & H5 & H6) & _).
   destruct (H _ _ _ _ _ _ _ _ _ _ _ _ H4 H1 H2) as (t' & Ht' & Hc). rewrite H5 in Ht'. inversion Ht'; subst. lia.
 Qed.
-
-Lemma owner_cap_on_this_tree_lemma :
-  if cap_guard_strict
-  then (forall s actor perm d supply cap owner noedit fee sc s' t,
-          upsert_msg true s actor perm d supply cap owner noedit fee sc = Ok s' -> aget d (s_reg s) = Some t -> 0 < t_cap t ->
-          exists t', aget d (s_reg s') = Some t' /\ 0 < t_cap t' <= t_cap t)
-  else ~ (forall s actor perm d supply cap owner noedit fee sc s' t,
-          upsert_msg false s actor perm d supply cap owner noedit fee sc = Ok s' -> aget d (s_reg s) = Some t -> 0 < t_cap t ->
-          exists t', aget d (s_reg s') = Some t' /\ 0 < t_cap t' <= t_cap t).
-Proof. destruct cap_guard_strict; [exact owner_cap_strict_lemma|exact owner_cap_statement_refuted]. Qed.
 
 (* over whole histories: as long as no message carries a negative cap, a positive cap only goes down *)
 Definition nonneg_cap_op (o : op) : Prop :=
   match o with OUpsertMsg _ _ _ _ cap _ _ _ _ => 0 <= cap | _ => True end.
 
-Lemma step_cap_monotone : forall strict s o s' d t, nonneg_cap_op o -> step strict s o = Ok s' ->
+Lemma step_cap_monotone : forall cf s o s' d t, nonneg_cap_op o -> step cf s o = Ok s' ->
   aget d (s_reg s) = Some t -> 0 < t_cap t -> exists t', aget d (s_reg s') = Some t' /\ 0 < t_cap t' <= t_cap t.
 Proof.
-  intros strict s o s' d t Hn H Ht Hp. destruct (step_view _ _ _ _ _ _ H Ht) as (_ & t' & Ht' & [E|E]).
+  intros cf s o s' d t Hn H Ht Hp. destruct (step_view _ _ _ _ _ _ H Ht) as (_ & t' & Ht' & [E|E]).
   - exists t'. split; [exact Ht'|lia].
   - destruct E as (actor & perm & supply & cap & owner & noedit & fee & sc & Eo & Ec & _ & _ & Hcap).
     subst o. cbn in Hn. destruct (Hcap ltac:(lia)) as (? & ? & _). exists t'. split; [exact Ht'|lia].
 Qed.
 
-Lemma run_cap_monotone : forall strict ops s d t, Forall nonneg_cap_op ops ->
+Lemma run_cap_monotone : forall cf ops s d t, Forall nonneg_cap_op ops ->
   aget d (s_reg s) = Some t -> 0 < t_cap t ->
-  exists t', aget d (s_reg (run strict s ops)) = Some t' /\ 0 < t_cap t' <= t_cap t.
+  exists t', aget d (s_reg (run cf s ops)) = Some t' /\ 0 < t_cap t' <= t_cap t.
 Proof.
-  intros strict. induction ops as [|o r IH]; intros s d t Hf Ht Hp.
+  intros cf. induction ops as [|o r IH]; intros s d t Hf Ht Hp.
   - exists t. split; [exact Ht|lia].
-  - inversion Hf as [|? ? Ho Hr]; subst. unfold run. cbn [fold_left]. fold (run strict (step_total strict s o) r).
-    unfold step_total. destruct (step strict s o) as [s'| |] eqn:E; [|eapply IH; eassumption..].
+  - inversion Hf as [|? ? Ho Hr]; subst. unfold run. cbn [fold_left]. fold (run cf (step_total cf s o) r).
+    unfold step_total. destruct (step cf s o) as [s'| |] eqn:E; [|eapply IH; eassumption..].
     destruct (step_cap_monotone _ _ _ _ _ _ Ho E Ht Hp) as (t1 & Ht1 & Hc1).
     destruct (IH s' d t1 Hr Ht1 ltac:(lia)) as (t2 & Ht2 & Hc2). exists t2. split; [exact Ht2|lia].
 Qed.
 
-(* with the strict guard: for ALL histories *)
-Lemma step_cap_monotone_strict : forall s o s' d t, step true s o = Ok s' ->
+(* with the cf guard: for ALL histories *)
+Lemma step_cap_monotone_strict : forall cf, cf_cap_strict cf = true -> forall s o s' d t, step cf s o = Ok s' ->
   aget d (s_reg s) = Some t -> 0 < t_cap t -> exists t', aget d (s_reg s') = Some t' /\ 0 < t_cap t' <= t_cap t.
 Proof.
-  intros s o s' d t H Ht Hp. destruct (step_view _ _ _ _ _ _ H Ht) as (_ & t' & Ht' & [E|E]).
+  intros cf Hcf s o s' d t H Ht Hp. destruct (step_view _ _ _ _ _ _ H Ht) as (_ & t' & Ht' & [E|E]).
   - exists t'. split; [exact Ht'|lia].
   - destruct E as (actor & perm & supply & cap & owner & noedit & fee & sc & Eo & Ec & _ & _ & Hcap).
-    destruct (Hcap ltac:(lia)) as (? & ? & Hs). specialize (Hs eq_refl). exists t'. split; [exact Ht'|lia].
+    destruct (Hcap ltac:(lia)) as (? & ? & Hs). specialize (Hs Hcf). exists t'. split; [exact Ht'|lia].
 Qed.
-Lemma run_cap_monotone_strict : forall ops s d t,
+Lemma run_cap_monotone_strict : forall cf, cf_cap_strict cf = true -> forall ops s d t,
   aget d (s_reg s) = Some t -> 0 < t_cap t ->
-  exists t', aget d (s_reg (run true s ops)) = Some t' /\ 0 < t_cap t' <= t_cap t.
+  exists t', aget d (s_reg (run cf s ops)) = Some t' /\ 0 < t_cap t' <= t_cap t.
 Proof.
-  induction ops as [|o r IH]; intros s d t Ht Hp.
+  intros cf Hcf. induction ops as [|o r IH]; intros s d t Ht Hp.
   - exists t. split; [exact Ht|lia].
-  - unfold run. cbn [fold_left]. fold (run true (step_total true s o) r).
-    unfold step_total. destruct (step true s o) as [s'| |] eqn:E; [|eapply IH; eassumption..].
-    destruct (step_cap_monotone_strict _ _ _ _ _ E Ht Hp) as (t1 & Ht1 & Hc1).
+  - unfold run. cbn [fold_left]. fold (run cf (step_total cf s o) r).
+    unfold step_total. destruct (step cf s o) as [s'| |] eqn:E; [|eapply IH; eassumption..].
+    destruct (step_cap_monotone_strict cf Hcf _ _ _ _ _ E Ht Hp) as (t1 & Ht1 & Hc1).
     destruct (IH s' d t1 Ht1 ltac:(lia)) as (t2 & Ht2 & Hc2). exists t2. split; [exact Ht2|lia].
 Qed.
 
 (* ... so the recorded supply stays within the cap the token had at the start *)
-Lemma run_supply_le_initial_cap : forall strict ops s d t, Forall nonneg_cap_op ops -> cap_ok (s_reg s) ->
-  aget d (s_reg s) = Some t -> 0 < t_cap t -> reg_supply (run strict s ops) d <= t_cap t.
+Lemma run_supply_le_initial_cap : forall cf ops s d t, Forall nonneg_cap_op ops -> cap_ok (s_reg s) ->
+  aget d (s_reg s) = Some t -> 0 < t_cap t -> reg_supply (run cf s ops) d <= t_cap t.
 Proof.
-  intros strict ops s d t Hf Hc Ht Hp. destruct (run_cap_monotone strict ops s d t Hf Ht Hp) as (t' & Ht' & Hb).
-  pose proof (run_cap_ok strict ops s Hc d t' Ht' ltac:(lia)). unfold reg_supply. rewrite Ht'. lia.
+  intros cf ops s d t Hf Hc Ht Hp. destruct (run_cap_monotone cf ops s d t Hf Ht Hp) as (t' & Ht' & Hb).
+  pose proof (run_cap_ok cf ops s Hc d t' Ht' ltac:(lia)). unfold reg_supply. rewrite Ht'. lia.
 Qed.
 
 (* ================================================================ where native tokens come from *)
-Lemma step_native_sources : forall strict s o s', step strict s o = Ok s' -> nat_supply s < nat_supply s' ->
+Lemma step_native_sources : forall cf s o s', step cf s o = Ok s' -> nat_supply s < nat_supply s' ->
   (exists dt, o = OBlock dt) \/ (exists actor amt, o = OMintIssue actor native amt).
 Proof.
-  intros strict s o s' H Hlt. unfold nat_supply, supply_of in Hlt. destruct o; cbn [step] in H.
+  intros cf s o s' H Hlt. unfold nat_supply, supply_of in Hlt. destruct o; cbn [step] in H.
   - left. eexists. reflexivity.
   - inversion H; subst. cbn in Hlt. lia.
   - inversion H; subst. cbn in Hlt. lia.
-  - unfold ubi_upsert in H. destruct (aget pool (s_pools s)); [|discriminate].
-    destruct (ubi_sum _ _); cbn [bind] in H; try discriminate. destruct (ubi_term _ _); cbn [bind] in H; try discriminate.
-    destruct (_ <? _); [discriminate|]. inversion H; subst. cbn in Hlt. lia.
+  - apply ubi_upsert_shape in H. subst s'. cbn in Hlt. lia.
   - unfold ubi_delete in H. destruct (ubi_remove _ _); [|discriminate]. inversion H; subst. cbn in Hlt. lia.
   - destruct (aget d (s_reg s)) as [t|] eqn:Et.
     + destruct (upsert_msg_existing _ _ _ _ _ _ _ _ _ _ _ _ _ H Et) as (_ & _ & _ & _ & _ & Hb & _). rewrite Hb in Hlt. lia.
     + destruct (upsert_msg_new _ _ _ _ _ _ _ _ _ _ _ _ H Et) as (_ & _ & _ & Hb & _). rewrite Hb in Hlt. lia.
   - destruct (prop_upsert_char _ _ _ _ _ _ _ _ _ H) as (_ & _ & Hb & _). rewrite Hb in Hlt. lia.
-  - destruct (mint_issue_view _ _ _ _ _ H) as (_ & _ & _ & Hb). rewrite Hb in Hlt.
+  - destruct (mint_issue_view _ _ _ _ _ _ H) as (_ & _ & _ & Hb). rewrite Hb in Hlt.
     destruct (Z.eq_dec d native) as [E|E]; [subst d; right; eexists; eexists; reflexivity|].
     rewrite zget_zadd_other in Hlt by auto. lia.
   - destruct (mint_burn_view _ _ _ _ _ H) as (_ & _ & Hp & Hb). rewrite Hb in Hlt.
@@ -940,31 +988,42 @@ Definition genesis_like_state : st :=
   mkSt 1700000000 5 (mkParams 180000000000000000 31557600 350000000000000000 6000000)
        (mkSnap 1700000000 (Some 1000000)) (mkSnap 1700000000 (Some 1000000))
        [(0, 1000000)] [(bkey 3 0, 5000)] [(0, mkTok 0 0 0 false PREC 500000000000000000)] [] [(0, 0)].
-Lemma native_mint_refuted_lemma : forall strict, exists s actor amt s',
-  step strict s (OMintIssue actor native amt) = Ok s' /\ nat_supply s' = nat_supply s + amt /\ 0 < amt.
-Proof. intros strict. exists genesis_like_state, 3, 1000. eexists. split; [destruct strict; vm_compute; reflexivity|]. vm_compute. split; [reflexivity|reflexivity]. Qed.
+Lemma native_mint_refuted_lemma : forall cf, cf_mint_native_refused cf = false -> exists s actor amt s',
+  step cf s (OMintIssue actor native amt) = Ok s' /\ nat_supply s' = nat_supply s + amt /\ 0 < amt.
+Proof.
+  intros [c1 c2 c3 c4 c5] H. cbn in H. subst c5. exists genesis_like_state, 3, 1000. eexists.
+  split; [vm_compute; reflexivity|]. vm_compute. split; [reflexivity|reflexivity].
+Qed.
+
+(* once MintIssueTx refuses the bond denom, blocks are the only source of native tokens *)
+Lemma native_only_blocks_lemma : forall cf, cf_mint_native_refused cf = true ->
+  forall s o s', step cf s o = Ok s' -> nat_supply s < nat_supply s' -> exists dt, o = OBlock dt.
+Proof.
+  intros cf Hcf s o s' H Hlt. destruct (step_native_sources _ _ _ _ H Hlt) as [B|(actor & amt & E)]; [exact B|].
+  subst o. cbn [step] in H. unfold mint_issue in H. rewrite Hcf in H. cbn in H. discriminate.
+Qed.
 
 (* inside a block: inflation first, then UBI; nothing else *)
-Lemma block_supply_decomposition : forall s dt s1 s2 s3, block_parts s dt = Ok (s1, s2, s3) ->
+Lemma block_supply_decomposition : forall cf s dt s1 s2 s3, block_parts cf s dt = Ok (s1, s2, s3) ->
   nat_supply s <= nat_supply s1 /\ nat_supply s1 <= nat_supply s2 /\ nat_supply s3 = nat_supply s2.
-Proof. intros s dt s1 s2 s3 H. destruct (block_parts_view _ _ _ _ _ H) as (_ & _ & N & E). lia. Qed.
+Proof. intros cf s dt s1 s2 s3 H. destruct (block_parts_view _ _ _ _ _ _ H) as (_ & _ & N & E). lia. Qed.
 
 (* the inflation part of a block obeys the target bound *)
-Lemma block_inflation_le_target : forall s dt s1 s2 s3 a,
-  block_parts s dt = Ok (s1, s2, s3) ->
+Lemma block_inflation_le_target : forall cf s dt s1 s2 s3 a,
+  block_parts cf s dt = Ok (s1, s2, s3) ->
   sn_amt (s_psnap s) = Some a -> 0 <= a -> 0 <= p_rate (s_params s) ->
   sn_time (s_psnap s) <= s_now s + dt -> 0 < as_int64 (p_period (s_params s)) ->
   nat_supply s1 <= Z.max (nat_supply s)
      (a + cdiv (a * p_rate (s_params s) * (s_now s + dt - sn_time (s_psnap s))) (PREC * as_int64 (p_period (s_params s)))).
 Proof.
-  intros s dt s1 s2 s3 a. unfold block_parts.
+  intros cf s dt s1 s2 s3 a. unfold block_parts.
   set (s0 := set_time s (s_now s + dt) (s_height s + 1)).
   destruct (1 <? s_height s0).
   - destruct (allocate s0) as [x| |] eqn:EA; cbn [bind]; try discriminate.
-    destruct (ubi_end (s_ubis x) x) as [y| |]; cbn [bind]; try discriminate.
+    destruct (ubi_end cf (s_ubis x) x) as [y| |]; cbn [bind]; try discriminate.
     intros H; inversion H; subst x y s3; clear H. intros Ha Ha0 Hr Ht Hp.
     exact (inflation_le_target_lemma s0 s1 a EA Ha Ha0 Hr Ht Hp).
-  - cbn [bind]. destruct (ubi_end (s_ubis s0) s0) as [y| |]; cbn [bind]; try discriminate.
+  - cbn [bind]. destruct (ubi_end cf (s_ubis s0) s0) as [y| |]; cbn [bind]; try discriminate.
     intros H; inversion H; subst; clear H. intros. change (nat_supply s0) with (nat_supply s). lia.
 Qed.
 
@@ -1029,11 +1088,188 @@ Definition mints_through_registry : bool :=
                                          | Some (RegistryToBank | TestHelper) => true
                                          | _ => String.eqb (ms_via s) "types.TokensKeeper"%string end) mint_burn_sites.
 
+(* burn sites that go to the bank directly: the registry record of those denominations is not reduced *)
+Definition burns_bypassing_registry : list (string * string) :=
+  map (fun s => (ms_pkg s, ms_func s))
+      (filter (fun s => negb (is_mint s) && negb (String.eqb (ms_via s) "types.TokensKeeper"%string)
+                        && negb (String.eqb (ms_pkg s) "x/tokens/keeper"%string)) mint_burn_sites).
+
 Lemma mint_sites_sanctioned_lemma :
   mint_burn_gen_errors = [] /\ sites_classified = true /\ mints_through_registry = true /\
   native_mint_sites = [("x/distributor/keeper", "Keeper.AllocateTokens"); ("x/layer2/keeper", "msgServer.MintIssueTx");
-                       ("x/ubi/keeper", "Keeper.ProcessUBIRecord")]%string.
+                       ("x/ubi/keeper", "Keeper.ProcessUBIRecord")]%string /\
+  burns_bypassing_registry = [("x/multistaking/keeper", "Keeper.SlashStakingPool"); ("x/multistaking/keeper", "Keeper.Undelegate")]%string.
 Proof. vm_compute. repeat split; reflexivity. Qed.
+
+(* ================================================================ UBI payout bound
+   In one block UBI mints at most the amount of every record whose period has elapsed.  Needs the
+   payout amount not to go through int64 and the due test not to wrap -- by the repaired shapes, or
+   because the stored records are small enough. *)
+Definition pools_nonneg (s : st) : Prop := forall p b, aget p (s_pools s) = Some b -> 0 <= b.
+Definition ubi_pay_ok (cf : config) (u : ubi) : Prop :=
+  0 <= u_amount u /\ 0 <= u_last u /\ 0 <= u_period u /\
+  (cf_ubi_amount_exact cf = true \/ u_amount u < two63) /\
+  (cf_ubi_due_exact cf = true \/ u_last u + u_period u < two64).
+
+Lemma as_int64_nonneg_small : forall x, 0 <= x < two63 -> as_int64 x = x.
+Proof.
+  intros x H. unfold as_int64, wrap64. assert (two63 < two64) by reflexivity.
+  rewrite Z.mod_small by lia. destruct (x <? two63) eqn:E; lia.
+Qed.
+
+Lemma allocate_keeps : forall s s', allocate s = Ok s' -> s_ubis s' = s_ubis s /\ s_pools s' = s_pools s /\ s_now s' = s_now s.
+Proof.
+  intros s s'. unfold allocate.
+  destruct (inflation_possible _ _ _ _) as [ip| |]; cbn [bind]; try discriminate.
+  destruct (negb ip); [intros H; inversion H; auto|].
+  destruct (target_supply _ _ _ _) as [tgt| |]; cbn [bind]; try discriminate.
+  destruct (0 <? _).
+  - destruct (reg_mint s native _) as [s1| |] eqn:EM; try discriminate.
+    intros H; inversion H; subst s1. apply reg_mint_supply in EM. intuition.
+  - intros H; inversion H; auto.
+Qed.
+
+Lemma process_ubi_payout : forall cf s u s', process_ubi cf s u = Ok s' -> pools_nonneg s -> ubi_pay_ok cf u ->
+  0 <= nat_supply s' - nat_supply s <= u_amount u * 1000000 /\ pools_nonneg s' /\ s_now s' = s_now s.
+Proof.
+  intros cf s u s' H Hp (Ha & Hl & Hper & Hamt & _). revert H. unfold process_ubi.
+  destruct (inflation_possible _ _ _ _) as [ip| |]; cbn [bind]; try discriminate.
+  destruct (negb ip); [intros H; inversion H; subst; repeat split; try lia; assumption|].
+  set (s1 := set_ubis s _).
+  assert (Eamt : (if cf_ubi_amount_exact cf then u_amount u else as_int64 (u_amount u)) = u_amount u).
+  { destruct (cf_ubi_amount_exact cf); [reflexivity|]. destruct Hamt as [?|?]; [discriminate|]. apply as_int64_nonneg_small; lia. }
+  rewrite Eamt.
+  assert (T : forall todo, (if u_dynamic u then
+                match aget (u_pool u) (s_pools s) with
+                | None => Err "spending pool does not exist"%string
+                | Some bal => if u_amount u * 1000000 <=? bal then Ok None else Ok (Some (u_amount u * 1000000 - bal))
+                end
+              else Ok (Some (u_amount u * 1000000))) = Ok todo ->
+              match todo with Some amt => amt <= u_amount u * 1000000 | None => True end).
+  { intros todo. destruct (u_dynamic u).
+    - destruct (aget (u_pool u) (s_pools s)) as [bal|] eqn:Eb; [|discriminate]. specialize (Hp _ _ Eb).
+      destruct (_ <=? bal); intros H; inversion H; subst; [exact I|lia].
+    - intros H; inversion H; subst. lia. }
+  match goal with |- (do todo <- ?X; _) = _ -> _ => destruct X as [todo| |] eqn:ET end; cbn [bind]; try discriminate.
+  specialize (T todo eq_refl).
+  destruct todo as [amt|]; [|intros H; inversion H; subst; subst s1; unfold nat_supply, supply_of, pools_nonneg, set_ubis in *; cbn [s_bank s_pools s_now] in *; repeat split; try lia; assumption].
+  destruct (amt <? 0); [discriminate|]. destruct (amt =? 0); [discriminate|].
+  destruct (reg_mint s1 native amt) as [s2| |] eqn:EM; cbn [bind]; try discriminate.
+  destruct (aget (u_pool u) (s_pools s2)) as [bal|] eqn:Eb; [|discriminate].
+  intros H; inversion H; subst s'; clear H.
+  pose proof (reg_mint_nat _ _ _ EM) as Hn. destruct (reg_mint_supply _ _ _ _ EM) as (Hpos & _ & _ & _ & _ & Hnow & Hpools & _).
+  split; [|split].
+  - subst s1. unfold nat_supply, supply_of, set_pools, set_ubis in *. cbn [s_bank] in *. lia.
+  - intros p b. unfold set_pools. cbn [s_pools]. destruct (Z.eq_dec p (u_pool u)) as [E|E].
+    + subst p. rewrite aget_aset_same. intros Hb; inversion Hb; subst. rewrite Hpools in Eb. subst s1. cbn [s_pools set_ubis] in Eb.
+      specialize (Hp _ _ Eb). lia.
+    + rewrite aget_aset_other by assumption. rewrite Hpools. subst s1. cbn [s_pools set_ubis]. apply Hp.
+  - unfold set_pools. cbn [s_now]. rewrite Hnow. reflexivity.
+Qed.
+
+Definition due_total (now : Z) (us : list ubi) : Z := spec_ubi_due_total now us.
+Lemma ubi_end_payout : forall cf us s s', ubi_end cf us s = Ok s' -> pools_nonneg s -> Forall (ubi_pay_ok cf) us ->
+  0 <= nat_supply s' - nat_supply s <= spec_ubi_due_total (s_now s) us /\ pools_nonneg s'.
+Proof.
+  intros cf. induction us as [|u r IH]; intros s s' H Hp Hf; cbn [ubi_end] in H.
+  - inversion H; subst. unfold spec_ubi_due_total. cbn. split; [lia|assumption].
+  - inversion Hf as [|? ? Hu Hr]; subst.
+    unfold spec_ubi_due_total. cbn [map zsum fold_right]. change (fold_right Z.add 0) with zsum.
+    fold (spec_ubi_due_total (s_now s) r).
+    assert (Hd : ubi_due cf (s_now s) u = true -> u_last u + u_period u < s_now s).
+    { destruct Hu as (Ha & Hl & Hper & _ & Hdue). unfold ubi_due. destruct (cf_ubi_due_exact cf); [lia|].
+      destruct Hdue as [?|?]; [discriminate|]. rewrite wrap64_small by lia. lia. }
+    assert (Hnn : 0 <= (if u_last u + u_period u <? s_now s then u_amount u * 1000000 else 0)).
+    { destruct Hu as (Ha & _). destruct (_ <? _); lia. }
+    destruct (ubi_due cf (s_now s) u) eqn:Edue.
+    + specialize (Hd eq_refl). assert (El : (u_last u + u_period u <? s_now s) = true) by lia. rewrite El in *.
+      destruct (process_ubi cf s u) as [s1| |] eqn:E; [| |discriminate].
+      * destruct (process_ubi_payout _ _ _ _ E Hp Hu) as (B1 & P1 & N1).
+        destruct (IH _ _ H P1 Hr) as (B2 & P2). rewrite N1 in B2. split; [lia|assumption].
+      * destruct (IH _ _ H Hp Hr) as (B2 & P2). destruct Hu as (Ha & _). split; [lia|assumption].
+    + destruct (IH _ _ H Hp Hr) as (B2 & P2). split; [lia|assumption].
+Qed.
+
+Lemma block_ubi_payout_lemma : forall cf s dt s1 s2 s3, block_parts cf s dt = Ok (s1, s2, s3) ->
+  pools_nonneg s -> Forall (ubi_pay_ok cf) (s_ubis s) ->
+  0 <= nat_supply s2 - nat_supply s1 <= spec_ubi_due_total (s_now s + dt) (s_ubis s) /\ pools_nonneg s3.
+Proof.
+  intros cf s dt s1 s2 s3. unfold block_parts.
+  set (s0 := set_time s (s_now s + dt) (s_height s + 1)).
+  assert (A : forall x, (if 1 <? s_height s0 then allocate s0 else Ok s0) = Ok x ->
+              s_ubis x = s_ubis s /\ s_pools x = s_pools s /\ s_now x = s_now s + dt).
+  { intros x. destruct (1 <? s_height s0); [intros H; apply allocate_keeps in H; exact H|intros H; inversion H; auto]. }
+  destruct (if 1 <? s_height s0 then allocate s0 else Ok s0) as [x| |]; cbn [bind]; try discriminate.
+  destruct (A x eq_refl) as (EU & EP & EN).
+  destruct (ubi_end cf (s_ubis x) x) as [y| |] eqn:E; cbn [bind]; try discriminate.
+  intros H Hp Hf; inversion H; subst s1 s2 s3; clear H.
+  assert (Hpx : pools_nonneg x) by (unfold pools_nonneg; rewrite EP; exact Hp).
+  rewrite EU in E. destruct (ubi_end_payout _ _ _ _ E Hpx Hf) as (B & P). rewrite EN in B.
+  split; [exact B|]. unfold pools_nonneg, distr_end, set_snaps. cbn [s_pools]. exact P.
+Qed.
+
+(* ================================================================ full statements, per guard shape
+   Each statement of the property that depends on a guard is a Prop over the configuration; it is
+   proved for the repaired shape and refuted for the shape first found, so that for ANY tree the
+   translator accepts, exactly one of the two is the theorem about that tree. *)
+Definition owner_cap_statement (cf : config) : Prop :=
+  forall s actor perm d supply cap owner noedit fee sc s' t,
+  upsert_msg cf s actor perm d supply cap owner noedit fee sc = Ok s' -> aget d (s_reg s) = Some t -> 0 < t_cap t ->
+  exists t', aget d (s_reg s') = Some t' /\ 0 < t_cap t' <= t_cap t.
+Definition ubi_hardcap_statement (cf : config) : Prop :=
+  forall s name amount period start end_ pool s', Forall ubi_dom (s_ubis s) ->
+  0 <= amount < two64 -> 0 <= period < two64 ->
+  ubi_upsert cf s name amount period start end_ pool = Ok s' ->
+  spec_ubi_yearly (s_ubis s') <= p_hardcap (s_params s').
+Definition ubi_due_statement (cf : config) : Prop :=
+  forall now u, 0 <= u_last u < two64 -> 0 <= u_period u < two64 -> ubi_due cf now u = true -> u_last u + u_period u < now.
+Definition native_origin_statement (cf : config) : Prop :=
+  forall s o s', step cf s o = Ok s' -> nat_supply s < nat_supply s' -> exists dt, o = OBlock dt.
+
+Lemma owner_cap_decided : forall cf, if cf_cap_strict cf then owner_cap_statement cf else ~ owner_cap_statement cf.
+Proof.
+  intros cf. destruct (cf_cap_strict cf) eqn:E; [exact (owner_cap_strict_lemma cf E)|exact (owner_cap_statement_refuted cf E)].
+Qed.
+Lemma ubi_hardcap_decided : forall cf, if cf_ubi_exact cf then ubi_hardcap_statement cf else ~ ubi_hardcap_statement cf.
+Proof.
+  intros cf. destruct (cf_ubi_exact cf) eqn:E.
+  - intros s name amount period start end_ pool s' Hd _ _ H.
+    destruct (ubi_within_hardcap_exact_lemma _ _ _ _ _ _ _ _ _ E Hd H) as (A & B & _). lia.
+  - intros St. destruct (ubi_overflow_refuted_lemma cf E) as (s & name & amount & period & start & end_ & pool & s' & Hd & H1 & H2 & H3 & H4).
+    specialize (St s name amount period start end_ pool s' Hd H1 ltac:(lia) H3). lia.
+Qed.
+Lemma ubi_due_decided : forall cf, if cf_ubi_due_exact cf then ubi_due_statement cf else ~ ubi_due_statement cf.
+Proof.
+  intros cf. destruct (cf_ubi_due_exact cf) eqn:E.
+  - intros now u _ _ H. exact (ubi_due_exact_elapsed cf now u E H).
+  - intros St. destruct (ubi_period_wrap_due cf E) as (u & now & H1 & H2 & H3 & H4). specialize (St now u H1 H2 H4). lia.
+Qed.
+Lemma native_origin_decided : forall cf, if cf_mint_native_refused cf then native_origin_statement cf else ~ native_origin_statement cf.
+Proof.
+  intros cf. destruct (cf_mint_native_refused cf) eqn:E.
+  - exact (native_only_blocks_lemma cf E).
+  - intros St. destruct (native_mint_refuted_lemma cf E) as (s & actor & amt & s' & H1 & H2 & H3).
+    destruct (St _ _ _ H1 ltac:(lia)) as (dt & Eo). discriminate Eo.
+Qed.
+
+(* ================================================================ a state already over the hard cap
+   The hard cap constrains ACCEPTANCE.  A state whose yearly total already exceeds it (the genesis
+   state of the tree: one record of 6,087,375 per year against the default cap 6,000,000; or any state
+   after governance lowered the cap) is not itself flagged; what the handler guarantees there is that
+   nothing more is accepted until the cap is raised or a record removed. *)
+Lemma ubi_over_cap_rejects_lemma : forall cf s name amount period start end_ pool s',
+  cf_ubi_exact cf = true -> Forall ubi_dom (s_ubis s) -> 0 <= amount -> 0 <= period ->
+  p_hardcap (s_params s) < spec_ubi_yearly (s_ubis s) ->
+  ubi_upsert cf s name amount period start end_ pool <> Ok s'.
+Proof.
+  intros cf s name amount period start end_ pool s' Hcf Hd Ha Hp Hover. unfold ubi_upsert. rewrite Hcf.
+  destruct (aget pool (s_pools s)); [|discriminate].
+  destruct (period =? 0) eqn:E; [discriminate|].
+  destruct (ubi_sum_exact (s_ubis s) 0) as [sum| |] eqn:ES; cbn [bind]; try discriminate.
+  apply ubi_sum_exact_val in ES. rewrite spec_ubi_yearly_eq in Hover.
+  assert (0 <= amount * year_seconds / period) by (apply Z.div_pos; unfold year_seconds; lia).
+  destruct (p_hardcap (s_params s) <? sum + amount * year_seconds / period) eqn:EH; [discriminate|lia].
+Qed.
 
 (* ================================================================ non-vacuity *)
 Definition infl_state : st :=
@@ -1041,12 +1277,12 @@ Definition infl_state : st :=
        (mkSnap 1699990000 (Some 300000000000000)) (mkSnap 1699990000 (Some 300000000000000))
        [(0, 300000000000000)] [(bkey 1 0, 1000000)] [(0, mkTok 0 0 0 false PREC 500000000000000000)]
        [mkUbi 0 500000 2592000 0 0 true 0] [(0, 0)].
-Lemma nonvacuous_inflation : exists s dt s1 s2 s3 a,
-  block_parts s dt = Ok (s1, s2, s3) /\ sn_amt (s_psnap s) = Some a /\ 0 <= a /\ 0 <= p_rate (s_params s)
+Lemma nonvacuous_inflation : forall cf, exists s dt s1 s2 s3 a,
+  block_parts cf s dt = Ok (s1, s2, s3) /\ sn_amt (s_psnap s) = Some a /\ 0 <= a /\ 0 <= p_rate (s_params s)
   /\ sn_time (s_psnap s) <= s_now s + dt /\ 0 < as_int64 (p_period (s_params s)) /\ nat_supply s < nat_supply s1.
 Proof.
-  exists infl_state, 86400. do 4 eexists.
-  split; [vm_compute; reflexivity|]. split; [reflexivity|]. vm_compute. repeat split; congruence.
+  intros [[] [] [] [] []]; exists infl_state, 86400; do 4 eexists;
+  (split; [vm_compute; reflexivity|]); (split; [reflexivity|]); vm_compute; repeat split; congruence.
 Qed.
 
 Definition gate_state : st :=
@@ -1054,34 +1290,34 @@ Definition gate_state : st :=
        (mkSnap 1699990000 (Some 300000000000000)) (mkSnap 1699990000 (Some 200000000000000))
        [(0, 300000000000000)] [] [(0, mkTok 0 0 0 false PREC 500000000000000000)]
        [mkUbi 0 500000 2592000 0 0 true 0] [(0, 0)].
-Lemma nonvacuous_gate : exists s dt s1 s2 s3,
+Lemma nonvacuous_gate : forall cf, exists s dt s1 s2 s3,
   0 <= p_maxann (s_params s) /\ spec_gate_closed (s_ysnap s) (p_maxann (s_params s)) (nat_supply s) (s_now s + dt) = true
-  /\ block_parts s dt = Ok (s1, s2, s3) /\ s_ubis s <> [].
+  /\ block_parts cf s dt = Ok (s1, s2, s3) /\ s_ubis s <> [].
 Proof.
-  exists gate_state, 86400. do 3 eexists.
-  split; [vm_compute; congruence|]. split; [vm_compute; reflexivity|]. split; [vm_compute; reflexivity|]. discriminate.
+  intros [[] [] [] [] []]; exists gate_state, 86400; do 3 eexists;
+  (split; [vm_compute; congruence|]); (split; [vm_compute; reflexivity|]); (split; [vm_compute; reflexivity|]); discriminate.
 Qed.
 
-Lemma nonvacuous_ubi : exists s name amount period start end_ pool s',
-  no_u64_overflow (s_ubis s) amount period /\ ubi_upsert s name amount period start end_ pool = Ok s' /\ s_ubis s <> [] /\ 0 < amount.
+Lemma nonvacuous_ubi : forall cf, exists s name amount period start end_ pool s',
+  no_u64_overflow (s_ubis s) amount period /\ ubi_upsert cf s name amount period start end_ pool = Ok s' /\ s_ubis s <> [] /\ 0 < amount.
 Proof.
-  exists infl_state, 1, 1000, 86400, 0, 0, 0. eexists.
-  split; [|split; [vm_compute; reflexivity|split; [discriminate|lia]]].
-  unfold no_u64_overflow. split; [repeat constructor; vm_compute; congruence|].
-  vm_compute. repeat split; congruence.
+  intros [[] [] [] [] []]; exists infl_state, 1, 1000, 86400, 0, 0, 0; eexists;
+  (split; [|split; [vm_compute; reflexivity|split; [discriminate|lia]]]);
+  unfold no_u64_overflow; (split; [repeat constructor; vm_compute; congruence|]);
+  vm_compute; repeat split; congruence.
 Qed.
 
-Lemma nonvacuous_registry : forall strict, exists s ops d t,
+Lemma nonvacuous_registry : forall cf, exists s ops d t,
   Forall nonneg_cap_op ops /\ cap_ok (s_reg s) /\ aget d (s_reg s) = Some t /\ 0 < t_cap t
-  /\ reg_supply s d < reg_supply (run strict s ops) d /\ 500 < reg_supply (run strict s ops) d.
+  /\ reg_supply s d < reg_supply (run cf s ops) d /\ 500 < reg_supply (run cf s ops) d.
 Proof.
-  intros strict.
+  intros cf.
   exists (set_reg infl_state [(0, mkTok 0 0 0 false PREC 500000000000000000); (4, mkTok 10 1000 1 false PREC 0)]),
          [OMintIssue 1 4 500; OUpsertMsg 1 false 4 0 900 1 false PREC 0; OMintIssue 1 4 500; OMintIssue 1 4 390], 4.
   eexists. split; [repeat constructor; cbn; lia|]. split.
   - intros d t. cbn [s_reg set_reg aget]. destruct (0 =? d); [intros H; inversion H; subst; cbn; lia|].
     destruct (4 =? d); [intros H; inversion H; subst; cbn; lia|discriminate].
-  - split; [vm_compute; reflexivity|]. destruct strict; vm_compute; repeat split; congruence.
+  - split; [vm_compute; reflexivity|]. destruct cf as [[] [] [] [] []]; vm_compute; repeat split; congruence.
 Qed.
 
 (* ================================================================ the spec checker accepts the model
@@ -1100,26 +1336,26 @@ Definition valid_monetary (s : st) (dt : Z) : Prop :=
 
 (* every block of the model passes the two inflation clauses of the checker, evaluated exactly as
    the checker evaluates them on real observations (checker state = observed previous values) *)
-Lemma c13_chk_sound_block_lemma : forall s dt s1 s2 s3, valid_monetary s dt ->
-  block_parts s dt = Ok (s1, s2, s3) ->
+Lemma c13_chk_sound_block_lemma : forall cf s dt s1 s2 s3, valid_monetary s dt ->
+  block_parts cf s dt = Ok (s1, s2, s3) ->
   chk_infl_target (nat_supply s) (s_psnap s) (s_params s) (s_now s + dt) (nat_supply s1) = true /\
   chk_annual_gate (nat_supply s) (s_ysnap s) (s_params s) (s_now s + dt) (nat_supply s2) = true.
 Proof.
-  intros s dt s1 s2 s3 (Hr & Hp & Hm & Ht & Ha) H. split.
+  intros cf s dt s1 s2 s3 (Hr & Hp & Hm & Ht & Ha) H. split.
   - unfold chk_infl_target, spec_target. destruct (sn_amt (s_psnap s)) as [a|] eqn:Ea.
-    + pose proof (block_inflation_le_target s dt s1 s2 s3 a H Ea (Ha a eq_refl) Hr Ht) as B.
+    + pose proof (block_inflation_le_target cf s dt s1 s2 s3 a H Ea (Ha a eq_refl) Hr Ht) as B.
       rewrite as_int64_small in B by exact Hp. specialize (B ltac:(lia)). lia.
     + (* no snapshot yet: an allocation would dereference the nil amount, so none happened *)
       revert H. unfold block_parts. set (s0 := set_time s (s_now s + dt) (s_height s + 1)).
       destruct (1 <? s_height s0).
       * unfold allocate. destruct (inflation_possible _ _ _ _) as [[|]| |]; cbn [bind negb]; try discriminate.
         -- unfold target_supply. change (s_psnap s0) with (s_psnap s). rewrite Ea. cbn [bind]. discriminate.
-        -- destruct (ubi_end (s_ubis s0) s0) as [y| |]; cbn [bind]; try discriminate.
+        -- destruct (ubi_end cf (s_ubis s0) s0) as [y| |]; cbn [bind]; try discriminate.
            intros H; inversion H; subst. change (nat_supply s0) with (nat_supply s). lia.
-      * cbn [bind]. destruct (ubi_end (s_ubis s0) s0) as [y| |]; cbn [bind]; try discriminate.
+      * cbn [bind]. destruct (ubi_end cf (s_ubis s0) s0) as [y| |]; cbn [bind]; try discriminate.
         intros H; inversion H; subst. change (nat_supply s0) with (nat_supply s). lia.
   - unfold chk_annual_gate. destruct (spec_gate_closed _ _ _ _) eqn:G; [|reflexivity].
-    destruct (no_mint_after_annual_max_lemma s dt s1 s2 s3 Hm G H) as (_ & E & _). lia.
+    destruct (no_mint_after_annual_max_lemma cf s dt s1 s2 s3 Hm G H) as (_ & E & _). lia.
 Qed.
 
 (* every accepted model operation other than a block and the (refuted) native MintIssue passes the
@@ -1127,12 +1363,12 @@ Qed.
 Definition mints_native_by_message (o : op) : bool :=
   match o with OMintIssue _ d _ => d =? native | _ => false end.
 Definition is_block (o : op) : bool := match o with OBlock _ => true | _ => false end.
-Lemma c13_chk_sound_origin_lemma : forall strict s o,
+Lemma c13_chk_sound_origin_lemma : forall cf s o,
   is_block o = false -> mints_native_by_message o = false ->
-  chk_origin (nat_supply s) (nat_supply (step_total strict s o)) = true.
+  chk_origin (nat_supply s) (nat_supply (step_total cf s o)) = true.
 Proof.
-  intros strict s o Hb Hm. unfold chk_origin, step_total.
-  destruct (step strict s o) as [s'| |] eqn:E; try lia.
+  intros cf s o Hb Hm. unfold chk_origin, step_total.
+  destruct (step cf s o) as [s'| |] eqn:E; try lia.
   destruct (Z_lt_le_dec (nat_supply s) (nat_supply s')) as [L|L]; [|lia].
   destruct (step_native_sources _ _ _ _ E L) as [(dt & ->)|(actor & amt & ->)]; cbn in *; discriminate.
 Qed.
